@@ -3,6 +3,7 @@
 package main
 
 import (
+	"time"
 	"encoding/base64"
 	"encoding/json"
 	"net/http"
@@ -60,6 +61,8 @@ func runC02(c *ctx) {
 			panic(err)
 		}
 		sessionCipher := sb.get(cookie.Session).Value
+		sessKey := s.ticketOf(sb).Key()
+		sessVal, _ := s.mr.Get(sessKey)
 		lb := newBrowser()
 		lr := lb.do(rp, "GET", base+"/oauth2/logout", http.Header{"Sec-Fetch-Mode": {"navigate"}, "Sec-Fetch-Dest": {"document"}})
 		logoutCipher := lb.get(cookie.Logout).Value
@@ -170,6 +173,15 @@ func runC02(c *ctx) {
 							if kind != "absent" {
 								b.jar = append(b.jar, jarCookie{Name: cookie.Login, Value: val, Domain: "wonderwall", Path: "/", HostOnly: true})
 							}
+							// the browser may also still hold a valid session of an earlier login: a callback that fails a check must leave that store entry alone too
+							withSession := dev <= 1 || r.chance(1, 2)
+							if withSession {
+								b.jar = append(b.jar, jarCookie{Name: cookie.Session, Value: sessionCipher, Domain: "wonderwall", Path: "/", HostOnly: true})
+								if !s.mr.Exists(sessKey) { // (a changed tree may have removed it in an earlier case: every case starts from a live session)
+									s.mr.Set(sessKey, sessVal)
+									s.mr.SetTTL(sessKey, time.Hour)
+								}
+							}
 							keysBefore := s.mr.Keys()
 							nc := s.idp.callCount()
 							cbBase, cbHdr := base, http.Header{"Sec-Fetch-Mode": {"navigate"}, "Sec-Fetch-Dest": {"document"}}
@@ -208,7 +220,7 @@ func runC02(c *ctx) {
 								"qstate", hx(q.Get("state")), "qcode", hx(q.Get("code")), "qerror", hx(q.Get("error")), "qiss", hx(q.Get("iss")),
 								"status", resp.Status, "calls", len(calls), "sentcode", hx(sentCode), "sentverifier", hx(sentVer), "sentredirect", hx(sentRedir),
 								"storechanged", strings.Join(keysBefore, ",") != strings.Join(keysAfter, ","), "sesscookie", sessSet, "logincleared", loginCleared,
-								"via", via, "cls", kind+"/"+qs+"/"+qc+"/"+qe+"/"+qi+"/"+fmtVal(issSup)+"/"+via)
+								"via", via, "withsession", withSession, "cls", kind+"/"+qs+"/"+qc+"/"+qe+"/"+qi+"/"+fmtVal(issSup)+"/"+via)
 						}
 					}
 				}
